@@ -136,6 +136,10 @@ type c17Call struct {
 	op   string   // put | del | batch | putall | add
 	docs []c17Doc // put, add: one; del: one (key only); batch, putall: several
 
+	// the call is made with a context that is already cancelled (a caller that gave up): it
+	// may fail, and then it acknowledges nothing and is no write of the model thread
+	deadCtx bool
+
 	ran     bool
 	err     error
 	retHash string // entry of the operation the call returned
@@ -282,10 +286,16 @@ func (c *c17Ctl) launch(st iface.Store, w *c17Writer, startGate <-chan struct{})
 				w.panicked = fmt.Errorf("panic: %v", p)
 			}
 		}()
-		ctx := context.Background()
+		bg := context.Background()
 		for _, call := range w.calls {
 			w.callWrites = 0
 			call.ran = true
+			ctx := bg
+			if call.deadCtx {
+				dead, cancel := context.WithCancel(bg)
+				cancel()
+				ctx = dead
+			}
 			var op operation.Operation
 			var err error
 			switch x := st.(type) {
@@ -873,6 +883,16 @@ func c17MultiPlans(r *Run) []c17Plan {
 				progs[i] = g.prog(i, "", 3, 4)
 			}
 		}
+		if k < nDelay && k%2 == 1 {
+			// one more goroutine whose only call is made with a cancelled context, between the others
+			dead := g.prog(n, "", 1, 1)
+			for _, c := range dead {
+				c.deadCtx = true
+			}
+			at := 1 + r.Rng.Intn(n-1)
+			progs = append(progs[:at], append([][]*c17Call{dead}, progs[at:]...)...)
+			n++
+		}
 		p := c17Plan{kind: "m-free", typ: typ, n: n, multi: true, progs: progs}
 		if k < nDelay {
 			p.kind = "m-free-delay"
@@ -1389,9 +1409,18 @@ func c17RunOne(r *Run, pi int, p c17Plan) error {
 		ackTerms := make([]string, len(ws))
 		total := 0
 		for i, w := range ws {
-			counts[i] = strconv.Itoa(w.count)
+			cnt := w.count
+			for _, c := range w.calls {
+				if c.deadCtx && c.err != nil {
+					cnt -= c.entries() // refused: no write of this thread
+					r.Count("dead-context-call-refused")
+				} else if c.deadCtx {
+					r.Count("dead-context-call-accepted")
+				}
+			}
+			counts[i] = strconv.Itoa(cnt)
 			ackTerms[i] = sim.CoqListN(acked[i])
-			total += w.count
+			total += cnt
 			for _, c := range w.calls {
 				r.Count("call:" + p.typ + ":" + c.op)
 			}
